@@ -12,36 +12,59 @@
    i.e. identity of canonical values (stronger than proto.Equal), for every schema table S
    (recursive types allowed), both decoder paths, every recursion limit that the value fits in.
 
-   Proved: exactly this statement, where [msg_valid] (see the comment in Msg/MsgValid.v) is the
+   Proved: exactly this statement.  [msg_valid] (see the comment in Msg/MsgValid.v) is the
    canonical-value predicate -- typed, in range, fields sorted by number, map entries sorted by
    key, no empty list/map, no implicit-presence zero, at most one member per oneof, depth within
    the limit (map entries cost one level, as in the code), unknown bytes a sequence of
    well-formed fields that the message type does not decode (unknown number, or known number
-   with a rejected wire type; minimal tags on the table-driven path), all lengths below 2^64 --
-   with two restrictions, which make this a _partial theorem:
-     [grp_unknown]  a group-typed value (GROUP / DELIMITED field) must not itself carry unknown
-                    bytes (sub-messages inside it may): the proof of the unknown section does
-                    not yet cover the case where the end-group tag follows it;
-     [slow_groups]  on the reflection path ([slow] = true) group-typed fields are excluded: that
-                    path first scans the group with protowire.ConsumeGroup, which needs the
-                    wire-scanner completeness theorem for encoder output.
-   Everything else of the property text is covered: proto2/proto3/editions shapes (explicit,
-   implicit, required presence), all 16 scalar kinds, packed and expanded lists, maps with
-   scalar or message values, oneofs, nested and recursive messages, extensions (ordinary
-   fields of the schema table), unknown fields, both decoder paths.  Non-deterministic map
-   order is outside this model (the harness checks it on the implementation). *)
+   with a rejected wire type; minimal tags on the table-driven path), all lengths below 2^64.
+   It covers proto2/proto3/editions shapes (explicit, implicit, required presence), all 16 scalar
+   kinds, packed and expanded lists, maps with scalar or message values, oneofs, groups, nested
+   and recursive messages, extensions (ordinary fields of the schema table), unknown fields
+   (also inside groups), and both decoder paths.
+
+   Finding FB3 (reflection path only): there [msg_valid] additionally demands that every
+   group-typed value passes the wire scanner ([msg_group_scans]), because that path reads a known
+   group with protowire.ConsumeGroup -- whose nesting budget of 10000 is shared with unknown
+   groups nested inside -- before decoding it.  The condition is necessary:
+   [C03_reflection_groups_refuted] exhibits a message that is canonical for the table-driven
+   path (and round-trips there) whose encoding the reflection path rejects; the same input is
+   replayed on dynamicpb by the harness corpus (finding FB3 in findings/C03.txt).  So for
+   [slow = true] the theorem is the "_except_FB3" form, with [msg_group_scans] as the narrowest
+   exclusion predicate; for [slow = false] it is the full statement
+   ([C03_roundtrip_table_driven]).
+
+   Not in this model: non-deterministic map order (the harness checks it on the
+   implementation), lazy decoding (C17), MessageSet (C47). *)
 From Coq Require Import List NArith ZArith.
 From PB Require Import Base.PBytes Wire.WireModel.
 From PB Require Import Msg.MsgSchema Msg.MsgValue Msg.MsgEnc Msg.MsgDec Msg.MsgValid Msg.MsgRoundP Msg.MsgExample.
 Import ListNotations.
 Open Scope N_scope.
 
-Theorem C03_roundtrip_partial :
+Theorem C03_roundtrip :
   forall (slow : bool) (S : schema) (limit : nat) (tid : nat) (v : value),
     msg_valid slow S limit tid v = true ->
     msg_decode slow S limit tid (msg_encode S tid v) = DOk v.
 Proof. exact msg_roundtrip. Qed.
-Print Assumptions C03_roundtrip_partial.
+Print Assumptions C03_roundtrip.
+
+(* the table-driven path of generated messages: no condition beyond canonicity *)
+Theorem C03_roundtrip_table_driven :
+  forall (S : schema) (limit : nat) (tid : nat) (v : value),
+    msg_valid false S limit tid v = true ->
+    msg_decode false S limit tid (msg_encode S tid v) = DOk v.
+Proof. exact (msg_roundtrip false). Qed.
+Print Assumptions C03_roundtrip_table_driven.
+
+(* FB3: canonical for the table-driven path, rejected by the reflection path *)
+Theorem C03_reflection_groups_refuted :
+  exists (S : schema) (v : value),
+    msg_valid false S 2 0 v = true /\
+    msg_decode false S 2 0 (msg_encode S 0 v) = DOk v /\
+    msg_decode true S 2 0 (msg_encode S 0 v) = DErr DParse.
+Proof. exact msg_fb3_witness. Qed.
+Print Assumptions C03_reflection_groups_refuted.
 
 (* Marshal is injective on canonical values: equal bytes, equal messages *)
 Theorem C03_encode_injective :
